@@ -182,6 +182,11 @@ func FieldLen(p interface{}, name string) int {
 func ClockLogLen() int     { return 0 }
 func ClockAt(i int) int64 { return 0 }
 
+// Ghost events for ordering obligations in concurrent harnesses (engine only).
+func Event(name string, idx ...int)           {}
+func Before(a, b string, ia, ib int) bool     { return true }
+func Happened(name string, idx ...int) bool   { return true }
+
 // Time builds a time.Time from a nanosecond instant (symbolically: the engine's time model).
 func Time(ns int64) time.Time { return time.Unix(0, ns) }
 
